@@ -89,7 +89,14 @@ def pgen_env(h):
         if "fl" in kw:
             kw["fl"] = Flavor[kw["fl"]]
         return Size(**kw)
-    return dict(Decap=Decap, RcStage=RcStage, Leaf=Leaf, Wrap=Wrap, WrapP=WrapP, Plain=Plain, size=size)
+    @h.generator(enable_cache=False)
+    def Scratch(p: Size) -> h.Module:
+        m = h.Module()
+        m.VDD, m.VSS = h.Port(), h.Port()
+        m.c = prims.C(c=p.nf * h.prefix.f)(p=m.VDD, n=m.VSS)
+        return m
+
+    return dict(Decap=Decap, RcStage=RcStage, Leaf=Leaf, Wrap=Wrap, WrapP=WrapP, Plain=Plain, size=size, Scratch=Scratch)
 
 
 def pgen_build(h, E, spec):
@@ -113,6 +120,15 @@ def pgen_build(h, E, spec):
 
 def pgen_earlier(h, E, spec, rnd):
     """unrelated earlier work with the same library: other generators (and, sometimes, the same one) called with equal values written differently"""
+    # unrelated, short-lived work: an un-cached generator swept over parameter sets whose results (and parameter objects) are dropped at once
+    if rnd.random() < 0.6:
+        import gc
+        for k in range(rnd.randint(5, 40)):
+            try:
+                E["Scratch"](E["size"]({"w": k, "nf": 1 + k % 3, "inner": {"x": k % 5}, "tag": "s" * (k % 7)}))
+            except Exception:
+                pass
+        gc.collect()
     for c in spec["earlier"]:
         if rnd.random() < 0.5:
             try:
